@@ -825,4 +825,396 @@ theorem wf_sound {m : Mol} (h : m.WF = true) : m.ids.Nodup ∧ SrcWF m := by
     | none => rfl
     | some b => rw [half c a b h2] at h1; cases h1
 
+
+/-! ### phase 2 exactly: the bonds among patched atoms are the replacement's bonds -/
+
+/-- the replacement's bond dict as a Python object: unique keys, symmetric with the same order on both sides, and every
+atom it mentions is an atom of the replacement -/
+structure ReplWF (t : Template) : Prop where
+  atoms_nodup : (t.replAtoms.map (·.1)).Nodup
+  keys_nodup : (t.replBonds.map (·.1)).Nodup
+  row_nodup : ∀ n row, (n, row) ∈ t.replBonds → (row.map (·.1)).Nodup
+  symm : ∀ n row m ord, (n, row) ∈ t.replBonds → (m, ord) ∈ row →
+    ∃ row' ord', (m, row') ∈ t.replBonds ∧ (n, ord') ∈ row' ∧ ord'.headD 0 = ord.headD 0
+  closed : ∀ n row, (n, row) ∈ t.replBonds → n ∈ t.replAtoms.map (·.1) ∧ ∀ m ord, (m, ord) ∈ row → m ∈ t.replAtoms.map (·.1)
+
+/-- bond order the replacement requests between its atoms `n` and `m` -/
+def rorder (t : Template) (n m : Nat) : Option Nat :=
+  match t.replBonds.lookup n with
+  | some row => (row.lookup m).map (·.headD 0)
+  | none => none
+
+/-- invariant of the replacement-bond loop: every entry is a requested bond between the images of two replacement atoms -/
+def J2 (t : Template) (fm : List (Nat × Nat)) (b : Bonds) : Prop :=
+  ∀ a c v, bget b a c = some v → ∃ n row m ord, (n, row) ∈ t.replBonds ∧ (m, ord) ∈ row ∧
+    fm.lookup n = some a ∧ fm.lookup m = some c ∧ v = { order := ord.headD 0, stereo := none }
+
+theorem replRow_exact {t : Template} (hwf : ReplWF t) {fm : List (Nat × Nat)}
+    (hinj : ∀ k1 ∈ t.replAtoms.map (·.1), ∀ k2 ∈ t.replAtoms.map (·.1), ∀ v, fm.lookup k1 = some v → fm.lookup k2 = some v → k1 = k2)
+    (n n' : Nat) (full : List (Nat × List Nat)) (hfull : (n, full) ∈ t.replBonds) (hn : fm.lookup n = some n') :
+    ∀ (row : List (Nat × List Nat)), (∀ e ∈ row, e ∈ full) → ∀ {b b' : Bonds}, J2 t fm b →
+    replRowLoop fm n' row b = .ok b' →
+    J2 t fm b' ∧ Grows b b' ∧
+    (∀ m ord m', (m, ord) ∈ row → fm.lookup m = some m' → (bget b' n' m').isSome) := by
+  intro row
+  induction row with
+  | nil =>
+    intro _ b b' hJ h
+    simp only [replRowLoop] at h
+    cases h
+    exact ⟨hJ, Grows.refl _, by simp⟩
+  | cons e tl ih =>
+    obtain ⟨m, ord⟩ := e
+    intro hsub b b' hJ h
+    have hsub' : ∀ e ∈ tl, e ∈ full := fun e he => hsub e (List.mem_cons_of_mem _ he)
+    simp only [replRowLoop] at h
+    split at h
+    · simp at h
+    · next m' hm' =>
+      split at h
+      · simp at h
+      · next b1 h1 =>
+        obtain ⟨_, _, _, _, hget⟩ := linkStep_spec h1
+        have hmem : (m, ord) ∈ full := hsub (m, ord) (by simp)
+        have hJ1 : J2 t fm b1 := by
+          intro a c v hv
+          rw [hget] at hv
+          split at hv
+          · next hac =>
+            obtain ⟨rfl, rfl⟩ := hac
+            refine ⟨n, full, m, ord, hfull, hmem, hn, hm', ?_⟩
+            cases hback : bget b c a with
+            | none => simp only [hback, Option.getD_none, Option.some.injEq] at hv; exact hv.symm
+            | some v' =>
+              simp only [hback, Option.getD_some, Option.some.injEq] at hv
+              subst hv
+              obtain ⟨n0, row0, m0, ord0, hr0, he0, hfn0, hfm0, hv'⟩ := hJ c a v' hback
+              -- n0 = m and m0 = n by injectivity of the extended match
+              have hcl := hwf.closed n full hfull
+              have hcl0 := hwf.closed n0 row0 hr0
+              have e1 : n0 = m := hinj n0 hcl0.1 m (hcl.2 m ord hmem) c hfn0 hm'
+              have e2 : m0 = n := hinj m0 (hcl0.2 m0 ord0 he0) n hcl.1 a hfm0 hn
+              subst e1 e2
+              obtain ⟨row', ord', hr', he', hord⟩ := hwf.symm m0 full n0 ord hfull hmem
+              have : row' = row0 := by
+                have h1 := lookup_of_mem_nodup hwf.keys_nodup hr'
+                have h2 := lookup_of_mem_nodup hwf.keys_nodup hr0
+                rw [h1] at h2; cases h2; rfl
+              subst this
+              have : ord' = ord0 := by
+                have h1 := lookup_of_mem_nodup (hwf.row_nodup n0 row' hr0) he'
+                have h2 := lookup_of_mem_nodup (hwf.row_nodup n0 row' hr0) he0
+                rw [h1] at h2; cases h2; rfl
+              subst this
+              rw [hv', hord]
+          · exact hJ a c v hv
+        have hG1 : Grows b b1 := by
+          intro a c hs
+          rw [hget]
+          split
+          · simp
+          · exact hs
+        obtain ⟨hJ', hG, hC⟩ := ih hsub' hJ1 h
+        refine ⟨hJ', Grows.trans hG1 hG, ?_⟩
+        intro m2 ord2 m2' hmem2 hm2'
+        rcases List.mem_cons.1 hmem2 with heq | hin
+        · cases heq
+          rw [hm'] at hm2'
+          cases hm2'
+          apply hG
+          rw [hget]
+          simp
+        · exact hC m2 ord2 m2' hin hm2'
+
+theorem replBonds_exact {t : Template} (hwf : ReplWF t) {fm : List (Nat × Nat)}
+    (hinj : ∀ k1 ∈ t.replAtoms.map (·.1), ∀ k2 ∈ t.replAtoms.map (·.1), ∀ v, fm.lookup k1 = some v → fm.lookup k2 = some v → k1 = k2) :
+    ∀ (rows : List (Nat × List (Nat × List Nat))), (∀ r ∈ rows, r ∈ t.replBonds) → ∀ {b b' : Bonds}, J2 t fm b →
+    replBondsLoop fm rows b = .ok b' →
+    J2 t fm b' ∧ Grows b b' ∧
+    (∀ n row m ord n' m', (n, row) ∈ rows → (m, ord) ∈ row → fm.lookup n = some n' → fm.lookup m = some m' →
+      (bget b' n' m').isSome) := by
+  intro rows
+  induction rows with
+  | nil =>
+    intro _ b b' hJ h
+    simp only [replBondsLoop] at h
+    cases h
+    exact ⟨hJ, Grows.refl _, by simp⟩
+  | cons r tl ih =>
+    obtain ⟨n, row⟩ := r
+    intro hsub b b' hJ h
+    have hsub' : ∀ r ∈ tl, r ∈ t.replBonds := fun r hr => hsub r (List.mem_cons_of_mem _ hr)
+    simp only [replBondsLoop] at h
+    split at h
+    · simp at h
+    · next n' hn' =>
+      split at h
+      · simp at h
+      · next b1 h1 =>
+        obtain ⟨hJ1, hG1, hC1⟩ := replRow_exact hwf hinj n n' row (hsub (n, row) (by simp)) hn' row (fun _ h => h) hJ h1
+        obtain ⟨hJ', hG, hC⟩ := ih hsub' hJ1 h
+        refine ⟨hJ', Grows.trans hG1 hG, ?_⟩
+        intro n2 row2 m ord n2' m' hr hm hn2 hm'
+        rcases List.mem_cons.1 hr with heq | hin
+        · cases heq
+          rw [hn'] at hn2
+          cases hn2
+          exact hG _ _ (hC1 m ord m' hm hm')
+        · exact hC n2 row2 m ord n2' m' hin hm hn2 hm'
+
+/-- closed form of phase 2: between the images of two replacement atoms there is exactly the requested bond -/
+theorem replBonds_closed_form {t : Template} (hwf : ReplWF t) {fm : List (Nat × Nat)}
+    (hinj : ∀ k1 ∈ t.replAtoms.map (·.1), ∀ k2 ∈ t.replAtoms.map (·.1), ∀ v, fm.lookup k1 = some v → fm.lookup k2 = some v → k1 = k2)
+    {b b' : Bonds} (hempty : ∀ a c, bget b a c = none) (h : replBondsLoop fm t.replBonds b = .ok b')
+    (n m n' m' : Nat) (hn : n ∈ t.replAtoms.map (·.1)) (hm : m ∈ t.replAtoms.map (·.1))
+    (hfn : fm.lookup n = some n') (hfm : fm.lookup m = some m') :
+    bget b' n' m' = (rorder t n m).map fun o => { order := o, stereo := none } := by
+  have hJ0 : J2 t fm b := by intro a c v hv; rw [hempty] at hv; cases hv
+  obtain ⟨hJ, _, hC⟩ := replBonds_exact hwf hinj t.replBonds (fun _ h => h) hJ0 h
+  cases hget : bget b' n' m' with
+  | some v =>
+    obtain ⟨n0, row0, m0, ord0, hr0, he0, hfn0, hfm0, hv⟩ := hJ n' m' v hget
+    have hcl0 := hwf.closed n0 row0 hr0
+    have e1 : n0 = n := hinj n0 hcl0.1 n hn n' hfn0 hfn
+    have e2 : m0 = m := hinj m0 (hcl0.2 m0 ord0 he0) m hm m' hfm0 hfm
+    subst e1 e2
+    simp only [rorder, lookup_of_mem_nodup hwf.keys_nodup hr0, lookup_of_mem_nodup (hwf.row_nodup n0 row0 hr0) he0,
+      Option.map_some, hv]
+  | none =>
+    simp only [rorder]
+    cases hl : t.replBonds.lookup n with
+    | none => rfl
+    | some row =>
+      cases hl2 : row.lookup m with
+      | none => simp [hl2]
+      | some ord =>
+        exfalso
+        have := hC n row m ord n' m' (lookup_some_mem' hl) (lookup_some_mem' hl2) hfn hfm
+        simp [hget] at this
+
+
+/-! ### phases 3 and 4 never touch a bond between two patched atoms -/
+
+theorem remainderAtoms_bget (P Dl : List Nat) : ∀ (l : List (Nat × Atom)) (atoms : List (Nat × Atom)) (bonds : Bonds)
+    (atoms' : List (Nat × Atom)) (bonds' : Bonds),
+    remainderAtoms P Dl l (atoms, bonds) = (atoms', bonds') → ∀ a, a ∈ P → ∀ c, bget bonds' a c = bget bonds a c := by
+  intro l
+  induction l with
+  | nil =>
+    intro atoms bonds atoms' bonds' h a _ c
+    simp only [remainderAtoms, Prod.mk.injEq] at h
+    rw [h.2]
+  | cons e tl ih =>
+    obtain ⟨n, sa⟩ := e
+    intro atoms bonds atoms' bonds' h a ha c
+    simp only [remainderAtoms] at h
+    split at h
+    · next hcond =>
+      simp only [Bool.and_eq_true, Bool.not_eq_eq_eq_not, Bool.not_true, List.contains_eq_mem,
+        decide_eq_false_iff_not] at hcond
+      rw [ih _ _ _ _ h a ha c]
+      have hne : a ≠ n := fun e => hcond.1 (e ▸ ha)
+      simp only [bget, lookup_dictSet, hne, if_false]
+    · exact ih _ _ _ _ h a ha c
+
+theorem structRow_pp (P Dl : List Nat) (n : Nat) : ∀ (row : List (Nat × Bond)) {b b' : Bonds},
+    structRowLoop P Dl n row b = .ok b' → ∀ a c, a ∈ P → c ∈ P → bget b' a c = bget b a c := by
+  intro row
+  induction row with
+  | nil => intro b b' h a c _ _; simp only [structRowLoop] at h; cases h; rfl
+  | cons e tl ih =>
+    obtain ⟨m, sb⟩ := e
+    intro b b' h a c ha hc
+    simp only [structRowLoop] at h
+    split at h
+    · exact ih h a c ha hc
+    · next hskip =>
+      simp only [Bool.or_eq_true, Bool.and_eq_true, List.contains_iff_mem, not_or] at hskip
+      split at h
+      · simp at h
+      · next b1 h1 =>
+        obtain ⟨_, _, _, _, hget⟩ := linkStep_spec h1
+        rw [ih h a c ha hc, hget]
+        have : ¬ (a = n ∧ c = m) := by
+          rintro ⟨rfl, rfl⟩
+          exact hskip.2 ⟨ha, hc⟩
+        simp [this]
+
+theorem structBonds_pp (P Dl : List Nat) : ∀ (rows : List (Nat × List (Nat × Bond))) {b b' : Bonds},
+    structBondsLoop P Dl rows b = .ok b' → ∀ a c, a ∈ P → c ∈ P → bget b' a c = bget b a c := by
+  intro rows
+  induction rows with
+  | nil => intro b b' h a c _ _; simp only [structBondsLoop] at h; cases h; rfl
+  | cons r tl ih =>
+    obtain ⟨n, row⟩ := r
+    intro b b' h a c ha hc
+    simp only [structBondsLoop] at h
+    split at h
+    · exact ih h a c ha hc
+    · split at h
+      · simp at h
+      · next b1 h1 =>
+        rw [ih h a c ha hc, structRow_pp P Dl n row h1 a c ha hc]
+
+/-! ### the extended match is injective on the replacement atoms -/
+
+theorem replAtomsLoop_inj {s : Mol} {mx0 : Nat} (hmx : ∀ k ∈ s.ids, k ≤ mx0) :
+    ∀ (l : List (Nat × RAtom)) {st st' : PState}, (l.map (·.1)).Nodup → Inv1 mx0 st →
+    (∀ k1 ∈ l.map (·.1), ∀ k2 ∈ l.map (·.1), ∀ m, mget st.mapping k1 = some m → mget st.mapping k2 = some m → k1 = k2) →
+    replAtomsLoop s l st = .ok st' →
+    (∀ k ∈ l.map (·.1), ∃ m, st'.mapping.lookup k = some m ∧
+        ((mget st.mapping k = some m ∧ m ≤ mx0) ∨ (mget st.mapping k = none ∧ st.maxAtom < m))) ∧
+    (∀ k1 ∈ l.map (·.1), ∀ k2 ∈ l.map (·.1), ∀ m, st'.mapping.lookup k1 = some m → st'.mapping.lookup k2 = some m → k1 = k2) := by
+  intro l
+  induction l with
+  | nil => intro st st' _ _ _ _; simp
+  | cons e tl ih =>
+    obtain ⟨n, ra⟩ := e
+    intro st st' hnd hinv hinj h
+    have hfull := replAtomsLoop_spec hmx ((n, ra) :: tl) hnd hinv hinj h
+    simp only [replAtomsLoop] at h
+    split at h
+    · simp at h
+    · next st1 h1 =>
+      simp only [List.map_cons, List.nodup_cons] at hnd
+      obtain ⟨hntl, hndtl⟩ := hnd
+      obtain ⟨hinv1, hmono1, hmap1, m1, a1, _, _, _, hcase⟩ := replAtomStep_facts hmx hinv h1
+      have hne : ∀ k ∈ tl.map (·.1), k ≠ n := fun k hk e => hntl (e ▸ hk)
+      have hmg : ∀ k ∈ tl.map (·.1), mget st1.mapping k = mget st.mapping k :=
+        fun k hk => mget_congr (hmap1 k (hne k hk))
+      have hinj1 : ∀ k1 ∈ tl.map (·.1), ∀ k2 ∈ tl.map (·.1), ∀ m, mget st1.mapping k1 = some m →
+          mget st1.mapping k2 = some m → k1 = k2 := by
+        intro k1 hk1 k2 hk2 m e1 e2
+        rw [hmg k1 hk1] at e1
+        rw [hmg k2 hk2] at e2
+        exact hinj k1 (List.mem_cons_of_mem _ hk1) k2 (List.mem_cons_of_mem _ hk2) m e1 e2
+      obtain ⟨hval, hinj'⟩ := ih hndtl hinv1 hinj1 h
+      obtain ⟨_, _, hmap', _, _, _⟩ := replAtomsLoop_spec hmx tl hndtl hinv1 hinj1 h
+      -- the head's final value
+      have hhead : ∃ m, st'.mapping.lookup n = some m ∧
+          ((mget st.mapping n = some m ∧ m ≤ mx0 ∧ m = m1) ∨ (mget st.mapping n = none ∧ m = st.maxAtom + 1 ∧ st1.maxAtom = m)) := by
+        rcases hcase with ⟨sa, hmg1, hsa, _, hmp, _⟩ | ⟨_, hmg1, hm1, hmax, hmp, _⟩
+        · refine ⟨m1, ?_, Or.inl ⟨hmg1, hmx m1 (mem_ids_of_lookup hsa), rfl⟩⟩
+          rw [hmap' n hntl, hmp]
+          simp only [mget] at hmg1
+          split at hmg1
+          · next v hv => split at hmg1
+                         · cases hmg1
+                         · cases hmg1; exact hv
+          · cases hmg1
+        · exact ⟨m1, by rw [hmap' n hntl, hmp], Or.inr ⟨hmg1, hm1, hmax⟩⟩
+      have hvals : ∀ k ∈ tl.map (·.1), ∃ m, st'.mapping.lookup k = some m ∧
+          ((mget st.mapping k = some m ∧ m ≤ mx0) ∨ (mget st.mapping k = none ∧ st1.maxAtom < m)) := by
+        intro k hk
+        obtain ⟨m, hm, hc⟩ := hval k hk
+        refine ⟨m, hm, ?_⟩
+        rcases hc with ⟨h1, h2⟩ | ⟨h1, h2⟩
+        · exact Or.inl ⟨by rw [← hmg k hk]; exact h1, h2⟩
+        · exact Or.inr ⟨by rw [← hmg k hk]; exact h1, h2⟩
+      constructor
+      · intro k hk
+        rcases List.mem_cons.1 hk with rfl | hk
+        · obtain ⟨m, hm, hc⟩ := hhead
+          refine ⟨m, hm, ?_⟩
+          rcases hc with ⟨h1, h2, _⟩ | ⟨h1, h2, _⟩
+          · exact Or.inl ⟨h1, h2⟩
+          · exact Or.inr ⟨h1, by rw [h2]; exact Nat.lt_succ_self _⟩
+        · obtain ⟨m, hm, hc⟩ := hvals k hk
+          refine ⟨m, hm, ?_⟩
+          rcases hc with hc | ⟨h1, h2⟩
+          · exact Or.inl hc
+          · exact Or.inr ⟨h1, Nat.lt_of_le_of_lt hmono1 h2⟩
+      · -- injectivity
+        have key : ∀ k ∈ tl.map (·.1), ∀ m, st'.mapping.lookup n = some m → st'.mapping.lookup k = some m → False := by
+          intro k hk m hn hk'
+          obtain ⟨mh, hmh, hch⟩ := hhead
+          have e1 : mh = m := by rw [hmh] at hn; exact Option.some.inj hn
+          obtain ⟨mk, hmk, hck⟩ := hvals k hk
+          have e2 : mk = m := by rw [hmk] at hk'; exact Option.some.inj hk'
+          subst e1 e2
+          rcases hch with ⟨h1, h2, _⟩ | ⟨h1, h2, h3⟩
+          · rcases hck with ⟨h4, _⟩ | ⟨_, h5⟩
+            · exact hne k hk (hinj k (List.mem_cons_of_mem _ hk) n (by simp) _ h4 h1)
+            · exact Nat.lt_irrefl _ (Nat.lt_of_le_of_lt (Nat.le_trans (Nat.le_trans h2 hinv.max_ge) hmono1) h5)
+          · rcases hck with ⟨_, h5⟩ | ⟨_, h5⟩
+            · rw [h2] at h5
+              exact Nat.lt_irrefl _ (Nat.lt_of_le_of_lt (Nat.le_trans h5 hinv.max_ge) (Nat.lt_succ_self _))
+            · rw [h3] at h5; exact Nat.lt_irrefl _ h5
+        intro k1 hk1 k2 hk2 m e1 e2
+        rcases List.mem_cons.1 hk1 with h1n | hk1'
+        · rcases List.mem_cons.1 hk2 with h2n | hk2'
+          · rw [h1n, h2n]
+          · subst h1n; exact (key k2 hk2' m e1 e2).elim
+        · rcases List.mem_cons.1 hk2 with h2n | hk2'
+          · subst h2n; exact (key k1 hk1' m e2 e1).elim
+          · exact hinj' k1 hk1' k2 hk2' m e1 e2
+
+
+theorem replAtomsLoop_rows {s : Mol} : ∀ (l : List (Nat × RAtom)) (st st' : PState), replAtomsLoop s l st = .ok st' →
+    ((∀ x y, bget st.bonds x y = none) ∧ st.bonds.map (·.1) = st.atoms.map (·.1)) →
+    ((∀ x y, bget st'.bonds x y = none) ∧ st'.bonds.map (·.1) = st'.atoms.map (·.1)) := by
+  intro l
+  induction l with
+  | nil => intro st st' h hi; simp only [replAtomsLoop] at h; cases h; exact hi
+  | cons e tl ih =>
+    obtain ⟨n, ra⟩ := e
+    intro st st' h hi
+    simp only [replAtomsLoop] at h
+    split at h
+    · simp at h
+    · next stm hm =>
+      apply ih _ _ h
+      rcases replAtomStep_cases hm with ⟨m, sa, _, _, rfl⟩ | ⟨_, _, rfl⟩
+      · exact ⟨fun x y => bget_dictSet_empty _ _ _ _ (hi.1 x y), by simp only [placeAtom, keys_dictSet, hi.2]⟩
+      · exact ⟨fun x y => bget_dictSet_empty _ _ _ _ (hi.1 x y), by simp only [placeAtom, keys_dictSet, hi.2]⟩
+
+/-- every patched atom is the image of a replacement atom under the extended match -/
+theorem replAtomsLoop_keys_img {s : Mol} {mx0 : Nat} (hmx : ∀ k ∈ s.ids, k ≤ mx0) :
+    ∀ (l : List (Nat × RAtom)) {st st' : PState}, (l.map (·.1)).Nodup → Inv1 mx0 st →
+    (∀ k1 ∈ l.map (·.1), ∀ k2 ∈ l.map (·.1), ∀ m, mget st.mapping k1 = some m → mget st.mapping k2 = some m → k1 = k2) →
+    replAtomsLoop s l st = .ok st' →
+    ∀ k ∈ st'.atoms.map (·.1), k ∈ st.atoms.map (·.1) ∨ ∃ n ∈ l.map (·.1), st'.mapping.lookup n = some k := by
+  intro l
+  induction l with
+  | nil =>
+    intro st st' _ _ _ h k hk
+    simp only [replAtomsLoop] at h
+    cases h
+    exact Or.inl hk
+  | cons e tl ih =>
+    obtain ⟨n, ra⟩ := e
+    intro st st' hnd hinv hinj h k hk
+    simp only [replAtomsLoop] at h
+    split at h
+    · simp at h
+    · next st1 h1 =>
+      simp only [List.map_cons, List.nodup_cons] at hnd
+      obtain ⟨hntl, hndtl⟩ := hnd
+      obtain ⟨hinv1, _, hmap1, m1, a1, _, _, hkeys1, hcase⟩ := replAtomStep_facts hmx hinv h1
+      have hne : ∀ k ∈ tl.map (·.1), k ≠ n := fun k hk e => hntl (e ▸ hk)
+      have hmg : ∀ k ∈ tl.map (·.1), mget st1.mapping k = mget st.mapping k :=
+        fun k hk => mget_congr (hmap1 k (hne k hk))
+      have hinj1 : ∀ k1 ∈ tl.map (·.1), ∀ k2 ∈ tl.map (·.1), ∀ m, mget st1.mapping k1 = some m →
+          mget st1.mapping k2 = some m → k1 = k2 := by
+        intro k1 hk1 k2 hk2 m e1 e2
+        rw [hmg k1 hk1] at e1
+        rw [hmg k2 hk2] at e2
+        exact hinj k1 (List.mem_cons_of_mem _ hk1) k2 (List.mem_cons_of_mem _ hk2) m e1 e2
+      obtain ⟨_, _, hmap', _, _, _⟩ := replAtomsLoop_spec hmx tl hndtl hinv1 hinj1 h
+      rcases ih hndtl hinv1 hinj1 h k hk with h2 | ⟨n2, hn2, hk2⟩
+      · rcases (hkeys1 k).1 h2 with rfl | h3
+        · refine Or.inr ⟨n, by simp, ?_⟩
+          rw [hmap' n hntl]
+          rcases hcase with ⟨sa, hmg1, _, _, hmp, _⟩ | ⟨_, _, _, _, hmp, _⟩
+          · rw [hmp]
+            simp only [mget] at hmg1
+            split at hmg1
+            · next v hv => split at hmg1
+                           · cases hmg1
+                           · cases hmg1; exact hv
+            · cases hmg1
+          · exact hmp
+        · exact Or.inl h3
+      · exact Or.inr ⟨n2, List.mem_cons_of_mem _ hn2, hk2⟩
+
 end ChythonModel.Proofs.C16P
